@@ -23,6 +23,9 @@ type mset map[string]V
 type mbytes []byte
 type mbyte byte
 
+// mfloat: a float needle (2.0 where the list holds 2); never stored in a container of the model
+type mfloat float64
+
 func cloneV(v V) V {
 	switch x := v.(type) {
 	case mlist:
@@ -65,6 +68,8 @@ func renderTo(sb *strings.Builder, v V) {
 		sb.WriteString(strconv.FormatInt(x, 10))
 	case int:
 		sb.WriteString(strconv.Itoa(x))
+	case mfloat:
+		sb.WriteString(strconv.FormatFloat(float64(x), 'f', 1, 64))
 	case string:
 		sb.WriteString(strconv.Quote(x))
 	case bool:
@@ -203,6 +208,8 @@ func realize(v V) object.Object {
 		return object.NewString(x)
 	case bool:
 		return object.NewBool(x)
+	case mfloat:
+		return object.NewFloat(float64(x))
 	case mbyte:
 		return object.NewByte(byte(x))
 	case mbytes:
@@ -267,6 +274,8 @@ func lit(s string) V {
 		return int64(1)
 	case "2":
 		return int64(2)
+	case "2.0":
+		return mfloat(2)
 	case "1.5":
 		return "<float 1.5>" // only ever used as a wrongly typed index; never realised through the model
 	case `"a"`:
